@@ -10,32 +10,32 @@ CHECKS = {
  "C02": ("model_checking", "TLC model checking (identifier discipline) + TLC trace validation with probes of every identifier ever issued",
          "MCWorld Inv_C02 exhaustively (new ids unused, stale ids never resolve, across reuse by allocate and allocate_batch with batch <,=,> free list); on real Worlds contains/entry/Entries::entry are probed for every id ever issued in the lineage plus forged ids after every event.",
          "Bounded; generations far below wrap-around.", "6 C02"),
- "C04": ("exploration", "TLC trace validation of a per-value drop ledger",
-         "Every construction, clone, deserialization and drop of every individually identified component value and resource is logged; after every event TLC requires the live-value set of the ledger to equal the values reachable in the observed worlds (no leak, no premature or double drop, no aliasing) and emptiness after all worlds are dropped.",
+ "C04": ("exploration", "TLC trace validation of a per-value drop ledger + TLC model checking of the row move of Entry::add / Entry::remove (spec/Reshape.tla)",
+         "Every construction, clone, deserialization and drop of every individually identified component value and resource is logged; after every event TLC requires the live-value set of the ledger to equal the values reachable in the observed worlds (no leak, no premature or double drop, no aliasing) and emptiness after all worlds are dropped. spec/Reshape.tla checks, for every instance over 3 components, that the row move through the packed buffer drops exactly the removed value (the pinned design, which never dropped it, is kept as a self-test that must violate ExactlyOnce). Leaks of a FAILED deserialization attempt are reported as INFO only (no world ever owned those values).",
          "Zero-sized and 1-byte components are ledgered by count, not identity.", "6 C04"),
  "C05": ("other", "TLC trace validation of the allocator-call protocol recorded around every library call + self-checking payloads + crash capture",
          "A global-allocator wrapper records every alloc/dealloc/realloc issued inside library calls (and later calls on those blocks) with what its book knows about the block; TLC requires: no release/resize of a dead or unknown block (double free, stray pointer), release/resize layout equal to the allocation layout (the 'Vec rebuilt with wrong capacity/type' failure), no library block left after all worlds are dropped. Freed blocks are poisoned and quarantined and every component read verifies a type tag + checksum, so type confusion and reads through stale columns are observed; a crash inside a safe call sequence is recorded and reported. Registry mixes zero-sized, 1-byte, small, align(64) and heap-owning components; drivers exercise reserve, shrink_to_fit, batch adoption and every view combination.",
          "Does not decide in-bounds-of-something-else accesses that are not component reads; allocations made on rayon worker threads are not attributed.", "6 C05 and 10"),
  "C06": ("model_checking", "TLC model checking (deserialization accepts every reachable store) + TLC validation of real round trips and lock-step twins",
-         "MCWorld Inv_C06 + Inv_C01 over SerDe; real round trips through serde_json and serde_assert token streams (human-readable and compact), checked for Ok, equality in both directions, same content/resources, StoreInv of the result and identical behaviour of original and copy under mirrored further operations.",
-         "Bounded; three encodings.", "6 C06"),
+         "MCWorld Inv_C06 + Inv_C01 over SerDe; real round trips through serde_json and serde_assert token streams (human-readable and compact), checked for Ok, equality in both directions, same content/resources, StoreInv of the result and identical behaviour of original and copy under mirrored further operations. spec/RegN.tla + regndrv repeat the round trip for registries of 1, 7, 8, 15, 16, 17 and 24 components (identifier wire form = ceil(n/8) bytes, padding bits exist iff n % 8 != 0; MCRegN exhaustive for n = 1..17).",
+         "Bounded; three encodings; seven registry sizes besides the main 9-component one.", "6 C06"),
  "C10": ("model_checking", "TLC model checking of Clone/CloneFrom on the store model + TLC trace validation",
          "2-world MCWorld instance: Clone and CloneFrom preserve StoreInv and represent the source's map; on real Worlds content, resources, token freshness (deep copy), equality, frame conditions on every other world after every later event, and lock-step twins.",
          "Bounded.", "6 C10"),
  "C11": ("model_checking", "TLC model checking of spec/Serde.tla (acceptance checks sufficient for StoreInv over the mutation closure of reachable encodings) + mutated encodings deserialized by the real code, verdict and resulting store compared by TLC with Accepts / Decode",
-         "Encodings of reachable worlds in three formats are mutated (every numeric field incl. declared lengths, identifier bytes, entity index/generation, free-list entries, values; token deletion/duplication/swap; field renames; element deletion/duplication) and fed to Deserialize. TLC requires an error, or a world that satisfies StoreInv, the identifier probes, the value ledger (no double drop) and the allocator protocol at once and under the random operations that follow on that world in the same history. For structured mutations of the JSON encoding (vocabulary of Serde.tla: row index / generation, row delete / duplicate, declared length, identifier bits, table delete / duplicate, allocator length, free-list delete / duplicate / push / alter, 1-3 of them incl. the coordinated row-alias pair) TLC predicts the verdict (Accepts) and the resulting store (Decode) from the previous dump and compares both with what the code did; token-level and text-level single-site mutations are checked for validity of the outcome only. Leaks of a failed attempt are reported as INFO only.",
+         "Encodings of reachable worlds in three formats are mutated (every numeric field incl. declared lengths, identifier bytes, entity index/generation, free-list entries, values; token deletion/duplication/swap; field renames; element deletion/duplication) and fed to Deserialize. TLC requires an error, or a world that satisfies StoreInv, the identifier probes, the value ledger (no double drop) and the allocator protocol at once and under the random operations that follow on that world in the same history. For structured mutations of the JSON encoding (vocabulary of Serde.tla: row index / generation, row delete / duplicate, declared length, identifier bits, table delete / duplicate, allocator length, free-list delete / duplicate / push / alter, 1-3 of them incl. the coordinated row-alias pair) TLC predicts the verdict (Accepts) and the resulting store (Decode) from the previous dump and compares both with what the code did; token-level and text-level single-site mutations are checked for validity of the outcome only. Leaks of a failed attempt are reported as INFO only. For registries of 7, 15 and 17 components a set padding bit in the last identifier byte must be refused (RegN).",
          "Mutations are single-site; declared lengths stay within the input size.", "6 C11"),
  "C13": ("model_checking", "TLC model checking of StoreInv + StoreInv evaluated by TLC on the real store dump after every event",
          "StoreInv (free list = inactive slots without duplicates, slot<->row bijection, lengths, one table per component set, lookup tables consistent) is an invariant of the bounded model and is evaluated on the hook's dump of every live world after every event of every trace.",
          "The dump hook reads the private fields faithfully.", "6 C13"),
  "C15": ("exploration", "TLC trace validation of resource views",
-         "get_mut, view_resources and query resource views in 14 subset/order/mutability variants over 3 token-carrying resources; TLC checks identity (token) and value of each returned resource, visibility of writes, and that no entity operation, clone or round trip changes, duplicates or loses a resource.",
+         "get_mut, view_resources and query resource views in 14 subset/order/mutability variants over 3 token-carrying resources; TLC checks identity (token) and value of each returned resource, visibility of writes, and that no entity operation, clone or round trip changes, duplicates or loses a resource. Under run_schedule (fork/join traces of the schedule family, incl. triples whose only conflict is a resource) a task that accesses a resource is never forked while a conflicting access is open or before a conflicting predecessor finished, and the final resources equal those of the sequential run.",
          "3 resources; orders that brood's type machinery rejects at compile time cannot be exercised.", "6 C15"),
  "C16": ("model_checking", "TLC model checking of the strict equality operator (Inv_C16) + TLC trace validation of world equality",
-         "WorldStore!StoreEq (len, tables by bytes with identifier and component columns in order, slots, free list in order) is reflexive, symmetric and implies equal reference maps on every pair of reachable stores of the 2-world model; on real worlds the logged == is compared with StoreEq evaluated on the observed stores (drift). == is logged for every ordered pair of live worlds after every event; TLC checks reflexivity, symmetry, eq => same identifiers/values/resources, and eq right after clone and round trip; twins that are then mutated exercise the contrapositive.",
+         "WorldStore!StoreEq (len, tables by bytes with identifier and component columns in order, slots, free list in order) is reflexive, symmetric and implies equal reference maps on every pair of reachable stores of the 2-world model; on real worlds the logged == is compared with StoreEq evaluated on the observed stores (drift). == is logged for every ordered pair of live worlds after every event; TLC checks reflexivity, symmetry, eq => same identifiers/values/resources, and eq right after clone and round trip; twins that are then mutated exercise the contrapositive, as do permuted near-miss pairs (after a copy, the rows of one table are re-bound to the identifiers in another order while every column stays equal position by position).",
          "<=3 live worlds.", "6 C16"),
  "C03": ("exploration", "specification-derived query family executed on real Worlds, every result validated by TLC against the query semantics of spec/Access.tla evaluated on the reference map",
-         "132 generated queries (view kinds alone and pairwise, orders, identifier view, nested filters, views as filters, World::entry, every Entries super/sub-view pairing, iteration combined with entry views) are run at random points of random histories; TLC checks the result set or multiset, per-item values and identities, None exactly when absent, writes visible on exactly the matched entities, and lo <= remaining <= hi for every size_hint.",
+         "208 generated queries (view kinds alone and pairwise, orders, identifier view, nested filters, views as filters, World::entry, every Entries super/sub-view pairing, iteration combined with entry views) are run at random points of random histories; TLC checks the result set or multiset, per-item values and identities, None exactly when absent, writes visible on exactly the matched entities, and lo <= remaining <= hi for every size_hint.",
          "The family is finite and fixed; zero-sized and 1-byte components are compared by value.", "6 C03"),
  "C09": ("model_checking", "TLC model checking of the producer split algebra (spec/ParSplit.tla) + par_query results on rayon pools of 1-16 threads validated by TLC against the sequential query semantics",
          "ParSplit: for every split tree of the zipped producers (mutable slice, RepeatNone, shared slice) every row is yielded exactly once. The parallel-capable part of the query family is run with par_query on worlds with many, empty, short and long tables under pools of 1,2,3,4,8,16 threads; TLC requires the multiset of results to equal the reference answer, every entity once, writes equal to the sequential semantics, and pairwise distinct addresses among mutably yielded values. rayon's stealing is sampled, not enumerated (DESIGN section 10).",
@@ -47,13 +47,13 @@ CHECKS = {
          "NoConflictingOverlap is an invariant of spec/Schedule.tla (and is violated by the pre-fix duplicate-key variant, checked as a self-test); on real runs a fork of task t while a task u is forked-and-not-joined is accepted only if t and u cannot touch the same data of a stored entity through iterator, resource views or entry views. The verdict is structural, so one trace covers all interleavings of that run.",
          "Conflict oracle = spec/Access.tla (rows must exist for a conflict); bounded schedule family.", "6 C08"),
  "C12": ("model_checking", "TLC model checking (GreedyParallel, Termination under weak fairness) + TLC validation of fork/join traces, watchdog for termination",
-         "GreedyParallel and Termination hold on spec/Schedule.tla; on real runs every pair of tasks that greedy in-order grouping by declared access puts in one group must be forked inside one join region (or be started early), and every run on pools of 1/2/4/8 threads and in the single-threaded deterministic shim must reach the end of run_schedule.",
+         "GreedyParallel and Termination hold on spec/Schedule.tla; on real runs every pair of tasks that greedy in-order grouping by declared access puts in one group must be forked inside one join region (excused only when exactly one of the two was started early with the previous stage), and every run on pools of 1/2/4/8 threads and in the single-threaded deterministic shim must reach the end of run_schedule.",
          "Greedy grouping yardstick = Access!StageOf; hang watchdog 600 s per bin.", "6 C12"),
  "C17": ("fault_enumeration", "panic injected at every call-back position enumerated from a dry run; ledger and allocator trace validated by TLC against PanicSafe (spec/TracePanic.tla)",
-         "For 24 operations that invoke user code and every position k of every call-back kind (Clone, Drop, PartialEq, Debug, Serialize, Deserialize, system / parallel closure bodies), one panic is injected on a world with multi-column tables, then every reachable value is read and every world dropped. TLC requires: the panic reaches the caller, no value dropped twice, no drop of a never-created value, no user code on a dropped value, no dropped or corrupt value reachable, allocator protocol intact, worlds droppable. Exhaustive over the enumerated (operation, kind, k) space; seven failing (operation, kind) classes of the pinned tree are recorded in known_findings.json.",
+         "For 24 operations that invoke user code and every position k of every call-back kind (Clone, Drop, PartialEq, Debug, Serialize, Deserialize, system / parallel closure bodies), one panic is injected on a world with multi-column tables, then every reachable value is read, every identifier issued at set-up is resolved through World::entry (it must land on a row of a table holding its own values), and every world is dropped. TLC requires: the panic reaches the caller, no value dropped twice, no drop of a never-created value, no user code on a dropped value, no dropped or corrupt value reachable, allocator protocol intact, worlds droppable. Exhaustive over the enumerated (operation, kind, k) space; seven failing (operation, kind) classes of the pinned tree are recorded in known_findings.json. Design models: spec/MCPanic.tla (per-column loops) and spec/Reshape.tla (row move of Entry::remove: dropping the removed value last is Consistent, dropping it in the middle of the move is a checked counterexample).",
          "One panic per scenario; world shapes fixed; leaks after a panic are accepted.", "6 C17 and 7"),
  "C14": ("translation_validation", "program family enumerated and labelled by TLC from spec/Borrow.tla, compiled by rustc against the current tree; verdicts validated by TLC (TraceBorrow)",
-         "171 programs: every pair of view kinds on one component in each position (views/views, views/entry views, entry/entry), resource view pairs, repeated entry queries (World::entry, Entries::entry, two entries), types outside the registry, 11 thread-crossing APIs x 3 payload kinds; each rejecting case has a conflict-free control that must compile (else tool error). The compiler is the implementation; TLC contributes the enumeration, the aliasing / Send / Sync oracle and the comparison. Three accepted programs (two usable results of Entries entry queries) are recorded in known_findings.json.",
+         "643 programs: every pair of view kinds on one component in each position (views/views, views/entry views, entry/entry; the former two, parallel views and System views also with an entity identifier view written first / last / in the middle), sub-views of entry views, resource view pairs, repeated entry queries (World::entry, Entries::entry, two entries), types outside the registry, 11 thread-crossing APIs x 3 payload kinds; each rejecting case has a conflict-free control that must compile (else tool error). The compiler is the implementation; TLC contributes the enumeration, the aliasing / Send / Sync oracle and the comparison. Three accepted programs (two usable results of Entries entry queries) are recorded in known_findings.json.",
          "Programs outside the family are not covered; rustc trusted.", "6 C14 and 10"),
  "C18": ("exploration", "exhaustive enumeration of the stated space, outcomes validated by TLC against Precond.tla (enabledness of Construct / BatchNew) with a completeness check of the enumeration",
          "All 120 registries of length 2..9 with one repeated type x {new, with_resources, default, Deserialize human-readable, Deserialize compact} must panic, 10 duplicate-free controls must return; all 340 column-length vectors over {0,1,2,3} for 1..4 columns: Batch::new panics iff lengths differ, and an accepted batch stores exactly that many rows. TLC checks every outcome and that the whole space was enumerated.",
